@@ -29,6 +29,17 @@ MCPlaceCases == { [cdims |-> MCCDims, tmpl |-> t, poses |-> PoseSeq(n, k)] :
 MCPlaceCasesBig == MCPlaceCases \cup { [cdims |-> cd, tmpl |-> t, poses |-> PoseSeq(n, k)] :
                      cd \in {MCCDims, <<9, 14, 11>>}, t \in {Tmpl8, Tmpl6}, n \in 1..20, k \in 3..6 }
 
+\* ---- one template per pose (list input); several poses share one orientation (incl. the default 0,0,0 = Id)
+Tmpl8b == [S |-> 8, cells |-> << Cell(<<0, 0, 0>>, TRUE), Cell(<<-1, 0, 0>>, TRUE), Cell(<<0, 2, 0>>, TRUE),
+                                 Cell(<<0, 0, 1>>, TRUE), Cell(<<1, 1, 0>>, FALSE) >>]
+TmplOf(m) == CASE m % 3 = 0 -> Tmpl8 [] m % 3 = 1 -> Tmpl6 [] OTHER -> Tmpl8b
+\* orientations repeat with period 2 or 3 (so poses with different templates share an orientation); k = 0 starts at Id
+ListPoses(n, k, per) == [i \in 1..n |-> [pos |-> << ((3 * i + k) % 11) + 1, ((5 * i + 2 * k) % 9) + 1, ((7 * i + 3 * k) % 8) + 1 >>,
+                                        R |-> Tri(21 * k + 5 * (i % per)), colour |-> i]]
+MCPlaceListCases == { [cdims |-> MCCDims, tmpls |-> [i \in 1..n |-> TmplOf(i + sft)], poses |-> ListPoses(n, k, per)] :
+                         n \in {2, 3, 4, 6, 9}, k \in 0..3, per \in {1, 2, 3}, sft \in {0, 1} }
+                    \cup { [cdims |-> MCCDims, tmpls |-> [i \in 1..n |-> Tmpl6], poses |-> ListPoses(n, k, 2)] : n \in {3, 5}, k \in 0..1 }
+
 \* ---- windowing: per axis fully outside below / straddling / inside / covering / straddling above / fully outside above
 MCVDims == <<4, 5, 6>>
 MCCentres == { -3, 0, 1, 2, 3, 4, 6, 9 }
